@@ -8,3 +8,14 @@ specs = list(W.FINGERPRINT) + ['guidedremediation/internal/vulns/vulns.go:IsAffe
 out = subprocess.run(['/verif/translator/bin/fingerprint', '/repo'] + specs, capture_output=True, text=True).stdout
 json.dump(json.loads(out), open('/verif/fingerprints.json', 'w'), indent=1, sort_keys=True)
 print(len(json.loads(out)), 'fingerprints recorded')
+
+# anchor files of every property (all functions)
+import os
+anch = {}
+for l in open('/verif/properties.jsonl'):
+    p = json.loads(l)
+    specs = [f + ':*' for f in p.get('anchors', {}).get('files', []) if f.endswith('.go') or f.endswith('/')]
+    o = subprocess.run(['/verif/translator/bin/fingerprint', '/repo'] + specs, capture_output=True, text=True).stdout
+    anch[p['id']] = json.loads(o)
+json.dump(anch, open('/verif/fingerprints_anchor.json', 'w'), indent=0, sort_keys=True)
+print({k: len(v) for k, v in anch.items()})
